@@ -191,3 +191,221 @@ func vNameStartByte(c byte) bool {
 //@   props C06 C07 C01
 //@   nopanic
 //@   modifies nothing
+
+// ---------------------------------------------------------------------------
+// parser.go: rule and declaration consumers over a token iterator
+
+// Token accessors are functions of the token value (assumed for the 17 token types).
+//@ func iface (parser.Token).Pos
+//@   pure
+//@ func iface (parser.Token).Kind
+//@   pure
+//@ func iface (parser.Compound).Pos
+//@   pure
+
+//@ func (Kind).String
+//@   props C06 C07
+//@   nopanic
+//@   requires k <= KFunctionBlock
+
+//@ type TokensIter invariant 0 <= self.index && self.index <= len(self.tokens)
+//@   props C06 C07
+
+//@ func NewIter
+//@   props C06 C07
+//@   nopanic
+//@   ensures result != nil && fresh(result) && result.index == 0 && result.tokens == tokens
+
+//@ func (TokensIter).HasNext
+//@   props C06 C07
+//@   nopanic
+//@   ensures result == (it.index < len(it.tokens))
+
+//@ func (*TokensIter).Next
+//@   props C06 C07
+//@   nopanic
+//@   requires it != nil
+//@   modifies it.index
+//@   ensures old(it.index) < len(it.tokens) ==> it.index == old(it.index) + 1 && t == it.tokens[old(it.index)]
+//@   ensures old(it.index) >= len(it.tokens) ==> it.index == old(it.index) && t == nil
+
+//@ func (*TokensIter).NextSignificant
+//@   props C06 C07
+//@   nopanic
+//@   requires it != nil
+//@   modifies it.index
+//@   ensures old(it.index) <= it.index
+//@   ensures result != nil ==> old(it.index) < it.index
+//@   loop 1 invariant old(it.index) <= it.index && it.index <= len(it.tokens)
+//@   loop 1 decreases len(it.tokens) - it.index
+
+//@ func (*TokensIter).tail
+//@   props C06 C07
+//@   nopanic
+//@   requires it != nil
+//@   ensures len(result) == len(it.tokens) - it.index
+//@   ensures forall(j, 0, len(result), result[j] == it.tokens[it.index+j])
+
+//@ func IsLiteral
+//@   props C06 C07
+//@   nopanic
+//@   ensures result == (typeIs(token, Literal) && token.(Literal).Value == char)
+
+// vStop: the tokens at which error recovery stops (CSS Syntax §5.4.x: the next
+// top-level semicolon; inside a nested block also a stray `}`).
+func vStop(t Token, nested bool) bool {
+	return IsLiteral(t, ";") || (nested && IsLiteral(t, "}"))
+}
+
+// Exact consumption: consumeRemnants stops just after the FIRST stop token (or at EOF).
+//@ func consumeRemnants
+//@   props C06 C07
+//@   nopanic
+//@   requires input != nil
+//@   modifies input.index
+//@   ensures old(input.index) <= input.index
+//@   ensures[first-stop] forall(j, old(input.index), input.index - 1, !vStop(input.tokens[j], nested))
+//@   ensures[at-stop] input.index == len(input.tokens) || (input.index > old(input.index) && vStop(input.tokens[input.index-1], nested))
+//@   loop 1 invariant old(input.index) <= input.index && input.index <= len(input.tokens)
+//@   loop 1 invariant forall(j, old(input.index), input.index, !vStop(input.tokens[j], nested))
+//@   loop 1 decreases len(input.tokens) - input.index
+
+// A declaration in a list ends at its own `;`: it never swallows the next declaration.
+//@ func consumeDeclarationInList
+//@   props C06 C07
+//@   nopanic
+//@   requires tokens != nil && firstToken != nil
+//@   requires forall(j, 0, len(tokens.tokens), tokens.tokens[j] != nil)
+//@   modifies tokens.index
+//@   ensures old(tokens.index) <= tokens.index
+//@   ensures[first-semicolon] forall(j, old(tokens.index), tokens.index - 1, !IsLiteral(tokens.tokens[j], ";"))
+//@   ensures[at-semicolon] tokens.index == len(tokens.tokens) || (tokens.index > old(tokens.index) && IsLiteral(tokens.tokens[tokens.index-1], ";"))
+//@   loop 1 invariant old(tokens.index) <= tokens.index && tokens.index <= len(tokens.tokens) && fresh(otherDeclarationTokens)
+//@   loop 1 invariant forall(j, old(tokens.index), tokens.index, !IsLiteral(tokens.tokens[j], ";"))
+//@   loop 1 invariant forall(j, 0, len(otherDeclarationTokens), otherDeclarationTokens[j] != nil)
+//@   loop 1 decreases len(tokens.tokens) - tokens.index
+
+// An at-rule ends at its first top-level `;` or {} block.
+//@ func consumeAtRule
+//@   props C06 C07
+//@   nopanic
+//@   requires tokens != nil
+//@   modifies tokens.index
+//@   ensures old(tokens.index) <= tokens.index
+//@   ensures[first-end] forall(j, old(tokens.index), tokens.index - 1, !IsLiteral(tokens.tokens[j], ";") && !typeIs(tokens.tokens[j], CurlyBracketsBlock))
+//@   ensures[at-end] tokens.index == len(tokens.tokens) || (tokens.index > old(tokens.index) && (IsLiteral(tokens.tokens[tokens.index-1], ";") || typeIs(tokens.tokens[tokens.index-1], CurlyBracketsBlock)))
+//@   loop 1 invariant old(tokens.index) <= tokens.index && tokens.index <= len(tokens.tokens) && fresh(prelude)
+//@   loop 1 invariant forall(j, old(tokens.index), tokens.index, !IsLiteral(tokens.tokens[j], ";") && !typeIs(tokens.tokens[j], CurlyBracketsBlock))
+//@   loop 1 decreases len(tokens.tokens) - tokens.index
+
+//@ func ruleError
+//@   props C06 C07
+//@   nopanic
+//@   requires token != nil
+
+// A qualified rule ends at its {} block (or, in a nested context, errors at the first `;`).
+//@ func consumeQualifiedRule
+//@   props C06 C07
+//@   nopanic
+//@   requires tokens != nil && firstToken != nil
+//@   requires forall(j, 0, len(tokens.tokens), tokens.tokens[j] != nil)
+//@   modifies tokens.index
+//@   ensures old(tokens.index) <= tokens.index
+//@   ensures[first-block] !typeIs(firstToken, CurlyBracketsBlock) ==> forall(j, old(tokens.index), tokens.index - 1, !typeIs(tokens.tokens[j], CurlyBracketsBlock))
+//@   loop 1 invariant old(tokens.index) <= tokens.index && tokens.index <= len(tokens.tokens) && fresh(prelude) && len(prelude) >= 1
+//@   loop 1 invariant forall(j, old(tokens.index), tokens.index, !typeIs(tokens.tokens[j], CurlyBracketsBlock))
+//@   loop 1 invariant forall(j, 0, len(prelude), prelude[j] != nil)
+//@   loop 1 decreases len(tokens.tokens) - tokens.index
+
+//@ func consumeRule
+//@   props C06 C07
+//@   nopanic
+//@   requires tokens != nil && firstToken != nil
+//@   requires forall(j, 0, len(tokens.tokens), tokens.tokens[j] != nil)
+//@   modifies tokens.index
+//@   ensures old(tokens.index) <= tokens.index
+
+// parseDeclaration: `!important` is recognised only as the last significant tokens;
+// the value slice excludes it.
+//@ func parseDeclaration
+//@   props C06 C07
+//@   nopanic
+//@   requires tokens != nil && firstToken != nil
+//@   requires forall(j, 0, len(tokens.tokens), tokens.tokens[j] != nil)
+//@   modifies tokens.index
+//@   ensures old(tokens.index) <= tokens.index
+//@   loop 1 invariant old(tokens.index) <= tokens.index && tokens.index <= len(tokens.tokens) && fresh(value)
+//@   loop 1 invariant i >= -1 && len(value) == i + 1 && 0 <= bangPosition && (state != 1 ==> bangPosition <= i)
+//@   loop 1 decreases len(tokens.tokens) - tokens.index
+
+// vTokensOK: every token of the list is non-nil (token lists come from Tokenize,
+// whose elements are always concrete token values).
+//@ func (*tokenizer).consumeValueList
+//@   ensures[non-nil] forall(j, 0, len(result), result[j] != nil)
+//@   loop 1 invariant forall(j, 0, len(out), out[j] != nil)
+
+//@ func consumeBlocksContent
+//@   props C06 C07
+//@   nopanic
+//@   requires tokens != nil && firstToken != nil
+//@   requires forall(j, 0, len(tokens.tokens), tokens.tokens[j] != nil)
+//@   modifies tokens.index
+//@   ensures old(tokens.index) <= tokens.index
+//@   loop 1 invariant old(tokens.index) <= tokens.index && tokens.index <= len(tokens.tokens) && fresh(declarationTokens) && fresh(semicolonToken)
+//@   loop 1 invariant forall(j, 0, len(declarationTokens), declarationTokens[j] != nil)
+//@   loop 1 invariant forall(j, 0, len(semicolonToken), semicolonToken[j] != nil)
+//@   loop 1 decreases len(tokens.tokens) - tokens.index
+
+//@ func ParseOneDeclaration
+//@   props C06 C07
+//@   nopanic
+//@   requires forall(j, 0, len(input), input[j] != nil)
+
+//@ func ParseOneComponentValue
+//@   props C06 C07
+//@   nopanic
+//@   requires forall(j, 0, len(input), input[j] != nil)
+
+//@ func ParseBlocksContents
+//@   props C06 C07
+//@   nopanic
+//@   requires forall(j, 0, len(input), input[j] != nil)
+//@   loop 1 invariant tokens != nil && 0 <= tokens.index && tokens.index <= len(tokens.tokens) && tokens.tokens == input && fresh(tokens) && fresh(result)
+//@   loop 1 decreases len(input) - tokens.index
+
+//@ func ParseDeclarationList
+//@   props C06 C07
+//@   nopanic
+//@   requires forall(j, 0, len(input), input[j] != nil)
+//@   loop 1 invariant tokens != nil && 0 <= tokens.index && tokens.index <= len(tokens.tokens) && tokens.tokens == input && fresh(tokens) && fresh(result)
+//@   loop 1 decreases len(input) - tokens.index
+
+//@ func ParseRuleList
+//@   props C06 C07
+//@   nopanic
+//@   requires forall(j, 0, len(input), input[j] != nil)
+//@   loop 1 invariant tokens != nil && 0 <= tokens.index && tokens.index <= len(tokens.tokens) && tokens.tokens == input && fresh(tokens) && fresh(result)
+//@   loop 1 decreases len(input) - tokens.index
+
+//@ func ParseStylesheet
+//@   props C06 C07
+//@   nopanic
+//@   requires forall(j, 0, len(input), input[j] != nil)
+//@   loop 1 invariant iter != nil && 0 <= iter.index && iter.index <= len(iter.tokens) && iter.tokens == input && fresh(iter) && fresh(result)
+//@   loop 1 decreases len(input) - iter.index
+
+//@ func RemoveWhitespace
+//@   props C06 C07 C08
+//@   nopanic
+//@   requires forall(j, 0, len(tokens), tokens[j] != nil)
+//@   ensures forall(j, 0, len(result), result[j] != nil)
+//@   ensures len(result) <= len(tokens)
+//@   loop 1 invariant fresh(out) && forall(j, 0, len(out), out[j] != nil) && len(out) <= rangeindex + 1 && rangeindex < len(tokens)
+//@   loop 1 decreases len(tokens) - rangeindex
+
+//@ func SplitOnComma
+//@   props C06 C07
+//@   nopanic
+//@   ensures len(result) >= 1
+//@   loop 1 invariant fresh(parts) && fresh(thisPart)
+//@   loop 1 decreases len(tokens) - rangeindex
